@@ -34,7 +34,7 @@ def closedRes (t : Arg) : ERes (Ev × Arg) → Prop
   | .err (.simp (.overflow k)) => valM t = .error k
   | _ => False
 
-theorem simplifyRaw_bin_const (op : BinOp) (a b : Int) :
+theorem simplifyRaw_fold_consts (op : BinOp) (a b : Int) :
     simplifyRaw (.bin op (.const a) (.const b)) =
       match foldBin op a b with
       | .ok v => .ok (true, .const v)
@@ -72,7 +72,7 @@ theorem evaluate_closed (lk : Bytes → Lookup) (isReg : Bytes → Bool) (t : Ar
     simp only [Arith.closed, Bool.and_eq_true] at hc
     rcases closedRes_cases (ihl hc.1) with ⟨e1, a, h1, hc1, hva⟩ | ⟨k, h1, hva⟩
     · rcases closedRes_cases (ihr hc.2) with ⟨e2, b, h2, hc2, hvb⟩ | ⟨k, h2, hvb⟩
-      · simp only [evaluate, h1, h2, afterRaw, simplifyRaw_bin_const]
+      · simp only [evaluate, h1, h2, afterRaw, simplifyRaw_fold_consts]
         cases hf : foldBin op a b with
         | ok v => simp [closedRes_ok, valM, hva, hvb, hf, Ev.or, hc1, hc2]
         | error k => simp [closedRes_ov, valM, hva, hvb, hf]
@@ -127,7 +127,7 @@ theorem simplify_closed (t : Arg) (hc : Arith.closed t = true) : closedResS t (s
     simp only [Arith.closed, Bool.and_eq_true] at hc
     rcases closedResS_cases (ihl hc.1) with ⟨c1, a, h1, hva⟩ | ⟨k, h1, hva⟩
     · rcases closedResS_cases (ihr hc.2) with ⟨c2, b, h2, hvb⟩ | ⟨k, h2, hvb⟩
-      · simp only [simplify, h1, h2, simplifyRaw_bin_const]
+      · simp only [simplify, h1, h2, simplifyRaw_fold_consts]
         cases hf : foldBin op a b with
         | ok v => simp [closedResS, valM, hva, hvb, hf]
         | error k => simp [closedResS, valM, hva, hvb, hf]
